@@ -1,0 +1,6 @@
+//go:build !verif
+
+package bigbuff
+
+// verifPoint is a no-op (inlined away) unless built with the "verif" build tag.
+func verifPoint(int) {}
